@@ -16,7 +16,7 @@ func init() { register("C01", runC01) }
 func runC01(c *Check, tier string) {
 	c.Decides = "every component of the target state named by the property (label, command, input paths, input contents, outputs, bin output, fingerprint keys and values, platform, dependency output digests) flows into the change hash; every kind of dependency node contributes; a cached result is served only through the keyed lookup of that very target and a validated restore; outputs are stored before the result that names them."
 	c.NotDec = "byte equality of restored outputs, glob resolution, command determinism, hash collisions, and anything about sequences of builds as histories."
-	ruleR01a(c)
+	ruleR01a(c, "R01a")
 	ruleR01b(c, "R01b")
 	ruleR01c(c)
 	ruleR01d(c, "R01d")
@@ -47,10 +47,10 @@ func keyBackward(c *Check) (all, def *engine.Reach) {
 }
 
 // R01a: key-field coverage
-func ruleR01a(c *Check) {
-	c.Rule("R01a", "every state component named by the property flows (value-flow graph, backward from Target.ChangeHash) into the change hash; input contents must flow through an os.Open whose path derives from Target.Inputs", 9)
+func ruleR01a(c *Check, rule string) {
+	c.Rule(rule, "every state component named by the property flows (value-flow graph, backward from Target.ChangeHash) into the change hash; input contents must flow through an os.Open whose path derives from Target.Inputs", 9)
 	if len(c.G.In[changeHashKey]) == 0 {
-		c.Unknown("R01a", "anchor/model.Target.ChangeHash", "anchor-unresolved: no store to model.Target.ChangeHash", "-")
+		c.Unknown(rule, "anchor/model.Target.ChangeHash", "anchor-unresolved: no store to model.Target.ChangeHash", "-")
 		return
 	}
 	all, def := keyBackward(c)
@@ -72,9 +72,9 @@ func ruleR01a(c *Check) {
 		key := "key-source/" + n.key.String()
 		if def.Has(n.key) {
 			path := c.G.Path(def, n.key, 6)
-			c.OK("R01a", key, n.what+" reaches Target.ChangeHash: "+strings.Join(path, " ; "), "-")
+			c.OK(rule, key, n.what+" reaches Target.ChangeHash: "+strings.Join(path, " ; "), "-")
 		} else {
-			c.Bad("R01a", key, n.what+" ("+n.key.String()+") does not flow into the change hash: a change to it would be served a stale cached result", "-")
+			c.Bad(rule, key, n.what+" ("+n.key.String()+") does not flow into the change hash: a change to it would be served a stale cached result", "-")
 		}
 	}
 	// input *contents*: an os.Open whose path derives from Target.Inputs and whose file reaches the key
@@ -102,7 +102,7 @@ func ruleR01a(c *Check) {
 			where = c.P.InstrPos(s) + " in " + c.P.FuncName(s.Parent())
 		}
 	}
-	c.Require(found, "R01a", "key-source/input-contents",
+	c.Require(found, rule, "key-source/input-contents",
 		"contents of the files named by Target.Inputs are read ("+where+") and flow into the change hash",
 		"no file opened from a path derived from Target.Inputs flows into the change hash: editing an input file would not invalidate the target", "-")
 
@@ -127,7 +127,7 @@ func ruleR01a(c *Check) {
 				}
 			}
 		}
-		c.Require(k && v, "R01a", "fingerprint-key-and-value/"+c.P.FuncName(nx.Parent()),
+		c.Require(k && v, rule, "fingerprint-key-and-value/"+c.P.FuncName(nx.Parent()),
 			"both the key and the value of each fingerprint entry flow into the change hash",
 			fmt.Sprintf("fingerprint iteration hashes key=%v value=%v: entries that differ only in the other component collide", k, v), c.P.InstrPos(nx))
 	}
